@@ -209,6 +209,10 @@ func (d *Data) MergeLabels(v dvid.VersionID, op labels.MergeOp, info dvid.ModInf
 //
 // labels.MergeEndEvent occurs at end of merge and transmits labels.DeltaMergeEnd struct.
 func (d *Data) RenumberLabels(v dvid.VersionID, origLabel, newLabel uint64, info dvid.ModInfo) (mutID uint64, err error) {
+	if origLabel == 0 || newLabel == 0 {
+		err = fmt.Errorf("label 0 is the protected background value and cannot be renumbered (%d -> %d)", origLabel, newLabel)
+		return
+	}
 	var isPresent bool
 	isPresent, err = d.labelIndexExists(v, newLabel)
 	if err != nil {
